@@ -437,4 +437,84 @@ theorem tokenize_renderRows (iw : Nat) (hiw : 0 < iw) (rows : List (Fmt.Row × L
       obtain ⟨x, hx, rfl⟩ := hl
       exact lineText_nobreak iw _ (hr x hx).2.nobreak c hc
 
+/-! ### The line number only ends up in the positions -/
+
+def setLn (ln : Nat) (t : Token) : Token := { t with sl := ln, el := ln }
+
+def resSetLn (ln : Nat) : LineRes → LineRes
+  | .ok ts => .ok (ts.map (FmtTok.setLn ln))
+  | e => e
+
+theorem tokLine_ln (pats : List Pat) (ln : Nat) :
+    ∀ fuel s off, tokLine pats ln fuel s off = resSetLn ln (tokLine pats 0 fuel s off) := by
+  intro fuel
+  induction fuel with
+  | zero => intro s off; cases s <;> simp [tokLine, resSetLn]
+  | succ f ih =>
+    intro s off
+    cases s with
+    | nil => simp [tokLine, resSetLn]
+    | cons c cs =>
+      simp only [tokLine]
+      split
+      · rfl
+      · rfl
+      · rename_i n sy hb
+        rw [ih]
+        cases hrec : tokLine pats 0 f (List.drop (n + 1) (c :: cs)) (off + (n + 1)) with
+        | fuel => rfl
+        | err o => rfl
+        | ok ts =>
+          cases sy with
+          | none => rfl
+          | some name => rfl
+
+/-- `LineToks` from one evaluation of the tokenizer model (line number 0). -/
+theorem LineToks.of_eval {s : List Char} {ts : List Token}
+    (hh : ∀ y, s.head? = some y → isSpaceChar y = false)
+    (hl : ∀ y, s.getLast? = some y → isSpaceChar y = false)
+    (hb : s.all (fun c => !isBreakChar c) = true)
+    (ht : tokLine tokTable.pats 0 s.length s 0 = .ok ts) : LineToks s (ts.map leafOf) := by
+  refine ⟨hh, hl, ?_, ?_⟩
+  · intro c hc
+    have := List.all_eq_true.mp hb c hc
+    simpa using this
+  · intro ln
+    refine ⟨ts.map (setLn ln), ?_, ?_⟩
+    · rw [tokLine_ln, ht]; rfl
+    · simp only [List.map_map]; rfl
+
+/-- The leaves the tokenizer model cuts `s` into (`none`: it fails). -/
+def evalLeaves (s : List Char) : Option (List Leaf) :=
+  match tokLine tokTable.pats 0 s.length s 0 with
+  | .ok ts => some (ts.map leafOf)
+  | _ => none
+
+theorem LineToks.of_evalLeaves {s : List Char} {L : List Leaf}
+    (hh : ∀ y, s.head? = some y → isSpaceChar y = false)
+    (hl : ∀ y, s.getLast? = some y → isSpaceChar y = false)
+    (hb : s.all (fun c => !isBreakChar c) = true)
+    (ht : evalLeaves s = some L) : LineToks s L := by
+  simp only [evalLeaves] at ht
+  split at ht
+  · rename_i ts hts
+    cases ht
+    exact LineToks.of_eval hh hl hb hts
+  · cases ht
+
+/-! ### The rows `_module` renders -/
+
+/-- The rows `_module` hands to `_render_rows_to_text`. -/
+def moduleRows (c d i a : List Fmt.Row) (ty : List (List Fmt.Row)) : List Fmt.Row :=
+  Fmt.addBlankRowsOnDedent (Fmt.indentBlanksAndComments
+    (Fmt.intersperse [{ name := .topTypeSeparator }, { name := .topTypeSeparator }]
+      (Fmt.intersperse [{ name := .sectionBreak }] [Fmt.stripEmptyRows c, d, i, a] :: ty)))
+
+theorem hModule_eq (iw : Nat) (c d i a : List Fmt.Row) (ty : List (List Fmt.Row)) :
+    Fmt.Handler.run iw .module [.rows c, .rows d, .rows i, .rows a, .sections ty] =
+      (Fmt.renderRows iw (moduleRows c d i a ty)).map Fmt.Fmt.str := by
+  simp only [Fmt.Handler.run, Fmt.hModule, Fmt.asRows, Fmt.asSections, Option.pure_def,
+    Option.bind_eq_bind, Option.bind_some, moduleRows]
+  cases Fmt.renderRows iw _ <;> rfl
+
 end Emboss.FmtTok
